@@ -262,6 +262,11 @@ class C16(Check):
                         tpl[pos] = t
                         yield {'k': 'gen', 'secs': secs, 'tpl': tpl, 'empties': t}
             yield {'k': 'pathseq'}
+            # several molecules in one file: [ moleculetype ] itself is a repeated section name
+            for tail in (['bonds'], ['bonds', 'dihedrals']):
+                for t in ('plain', 'comment'):
+                    secs2 = ['moleculetype', 'atoms'] + tail + ['moleculetype', 'atoms'] + tail
+                    yield {'k': 'gen', 'secs': secs2, 'tpl': [t] * len(secs2), 'lead': 1, 'twomol': 1}
             # sections standing BEFORE [ moleculetype ] (a self-contained topology with its own defaults / atom types)
             for lead in (['defaults'], ['atomtypes'], ['defaults', 'atomtypes']):
                 for tail in (['bonds'], ['bonds', 'dihedrals'], ['dihedrals', 'bonds', 'dihedrals']):
@@ -315,7 +320,8 @@ class C16(Check):
                 R.violation(sig, case, '%s: %s' % (case['file'], det))
             return
         secs, tpls = case['secs'], case['tpl']
-        prefix = ('sections-before-moleculetype/' if case.get('lead') else
+        prefix = ('several-molecules-in-one-file/' if case.get('twomol') else
+                  'sections-before-moleculetype/' if case.get('lead') else
                   'several-empty-trailing-comments/' if case.get('empties') else
                   'section-without-content-lines/' if case.get('empty') else
                   'comment-text-starting-with-hash/' if case.get('hash') else
